@@ -129,6 +129,7 @@ def check(prop, tier, seed):
         except FileNotFoundError:
             problems.append("witness %s of finding %s missing" % (f["witness"], f["id"]))
     new = []
+    saved_known = set()
     seen_keys = set()
     nknown = 0
     for v in m["violations"]:
@@ -136,6 +137,9 @@ def check(prop, tier, seed):
             continue
         f = findings.attribute(v, fnd)
         if f is not None:
+            if f["id"] not in known_seen or f["id"] not in saved_known:
+                saved_known.add(f["id"])
+                write_replay(prop, 0, dict(v, kind="known_%s" % f["id"]))
             known_seen.setdefault(f["id"], f)
             nknown += 1
             continue
